@@ -92,3 +92,63 @@ pub mod compose {
         include!("proofs_compose.rs");
     }
 }
+
+/// One need is answered from ONE snapshot: the handle `handle_need` runs all its queries on (the
+/// range query, the per-version gap / buffered probes, the bookkeeping lookups) is a transaction
+/// opened on the connection before the first query — not the bare connection, on which every
+/// statement would see its own snapshot and a version applied in between would be declared empty.
+/// Sliced: the statement that binds `tx`.  (The borrow checker does the rest: while `tx` borrows
+/// `conn` mutably no query can go around it.)  Snapshot isolation itself is SQLite's.
+pub mod snapshot {
+    pub use venv::eyre;
+    pub struct Connection {
+        pub transactions_opened: u32,
+    }
+    pub struct Transaction<'a> {
+        pub conn: &'a mut Connection,
+    }
+    #[derive(Debug)]
+    pub struct SqlError;
+    impl eyre::EnvError for SqlError {}
+    impl Connection {
+        /// rusqlite: BEGIN DEFERRED — a read transaction once the first SELECT has run
+        pub fn transaction(&mut self) -> Result<Transaction<'_>, SqlError> {
+            self.transactions_opened += 1;
+            Ok(Transaction { conn: self })
+        }
+        pub fn unchecked_transaction(&self) -> Result<(), SqlError> {
+            Err(SqlError)
+        }
+    }
+    impl<'a> core::ops::Deref for Transaction<'a> {
+        type Target = Connection;
+        fn deref(&self) -> &Connection {
+            self.conn
+        }
+    }
+    pub trait ReadHandle {
+        fn pins_one_snapshot(&self) -> bool;
+    }
+    impl ReadHandle for Transaction<'_> {
+        fn pins_one_snapshot(&self) -> bool {
+            true
+        }
+    }
+    impl ReadHandle for &Connection {
+        fn pins_one_snapshot(&self) -> bool {
+            false
+        }
+    }
+    impl ReadHandle for &mut Connection {
+        fn pins_one_snapshot(&self) -> bool {
+            false
+        }
+    }
+    include!("sliced/snapshot.rs");
+
+    #[cfg(kani)]
+    mod proofs {
+        use super::*;
+        include!("proofs_snapshot.rs");
+    }
+}
